@@ -111,16 +111,15 @@ def run(ctx):
     quick = ctx.tier == "quick"
     # ---- 1. the transcription against the statement -------------------------------------
     cfg = "Import_mc_quick.cfg" if quick else "Import_mc_thorough.cfg"
-    r = ctx.tlc("Import", cfg, timeout=1500)
+    r = ctx.tlc("Import", cfg, args=[] if quick else ["-coverage", "1"], timeout=1500)
     ctx.extra["mc_fixed"] = {"cfg": cfg, "distinct": r.distinct, "generated": r.generated, "wall_s": round(r.wall, 1)}
-    rp = ctx.tlc("Import", "Import_mc_pinned.cfg", timeout=600, allow_violation=True)
-    ctx.extra["mc_pinned"] = {"violated": rp.violated, "distinct": rp.distinct}
     if not quick:
-        rc = ctx.tlc("Import", cfg, args=["-coverage", "1"], timeout=1500, count=False)
-        zero = [z for z in rc.coverage_zero() if z in ("SavePrevBatch", "AllocBatch", "Work", "EndBatch", "FinalSave", "Init")]
+        zero = [z for z in r.coverage_zero() if z in ("SavePrevBatch", "AllocBatch", "Work", "EndBatch", "FinalSave", "Init")]
         ctx.extra["coverage_zero_actions"] = zero
         if zero:
             raise core.MachineryError("actions never taken in %s: %s" % (cfg, zero))
+    rp = ctx.tlc("Import", "Import_mc_pinned.cfg", timeout=600, allow_violation=True)
+    ctx.extra["mc_pinned"] = {"violated": rp.violated, "distinct": rp.distinct}
 
     # ---- 2. cases enumerated by TLC -------------------------------------------------------
     steps = []
